@@ -66,8 +66,11 @@ Definition sel_inv (s : shared') (sel : selector) : Prop :=
   | SelSpecial sym => is_char sym = true
   end.
 (* a list that REPLACES the symbol at the cursor (opened on a symbol) has a symbol at the cursor *)
+Definition char_at_cursor (e : comp_editor) : Prop := exists ch, nth_error (symbols (inner e)) (cursor e) = Some (SymChar ch).
 Definition act_ok (s : shared') (act : bool) (sel : selector) : Prop :=
-  match sel with SelPhrase _ => True | _ => act = false -> cursor (com s) < ce_len (com s) end.
+  match sel with SelPhrase _ => True | _ => act = false -> char_at_cursor (com s) end.
+Lemma char_at_cursor_lt e : char_at_cursor e -> cursor e < ce_len e.
+Proof. intros (ch & H). unfold ce_len, clen. apply nth_error_Some. congruence. Qed.
 Definition pg_ok (s : shared') (pg : nat) (act : bool) (sel : selector) : Prop := page_ok s pg sel /\ act_ok s act sel.
 Definition state_inv (s : shared') (st : estate) : Prop :=
   match st with Selecting pg act sel => sel_inv s sel /\ pg_ok s pg act sel | _ => True end.
@@ -94,7 +97,7 @@ Lemma sel_inv_view a b sel : inner (com a) = inner (com b) -> sel_inv a sel -> s
 Proof. intros Hc. destruct sel; cbn; [|trivial|trivial]. intros (Hok & Hcom). split; [assumption | congruence]. Qed.
 
 Lemma act_ok_view a b act sel : inner (com a) = inner (com b) -> cursor (com a) = cursor (com b) -> act_ok a act sel -> act_ok b act sel.
-Proof. intros Hi Hc. unfold act_ok, ce_len. rewrite Hi, Hc. trivial. Qed.
+Proof. intros Hi Hc. unfold act_ok, char_at_cursor. rewrite Hi, Hc. trivial. Qed.
 
 Lemma state_inv_view a b st : same_view a b -> state_inv a st -> state_inv b st.
 Proof.
@@ -542,9 +545,10 @@ Lemma new_special_selecting_inv s sym s' st' : SInv s ->
 Proof.
   intros [W Dk Sy Pp] Hsym Hch H. unfold new_special_selecting in H. bind_ok H m Hm.
   assert (K : wf_ce (ce_clamp_cursor (ce_push_cursor (com s)))) by (apply ce_clamp_cursor_wf, ce_push_cursor_wf, W).
-  destruct (symbol_for_select_at_clamped_cursor _ _ Hsym) as (Hlt & _).
-  assert (Hlen : cursor (ce_clamp_cursor (ce_push_cursor (com s))) < ce_len (ce_clamp_cursor (ce_push_cursor (com s)))).
-  { unfold ce_len. replace (inner (ce_clamp_cursor (ce_push_cursor (com s)))) with (inner (com s)); [exact Hlt|].
+  destruct (symbol_for_select_at_clamped_cursor _ _ Hsym) as (Hlt & Hat).
+  assert (Hlen : char_at_cursor (ce_clamp_cursor (ce_push_cursor (com s)))).
+  { destruct sym as [code|ch]; [discriminate|]. exists ch.
+    replace (inner (ce_clamp_cursor (ce_push_cursor (com s)))) with (inner (com s)); [exact Hat|].
     unfold ce_clamp_cursor, ce_push_cursor. cbn [cursor inner cursor_stack ce_len]. destruct (Nat.eqb _ _); reflexivity. }
   destruct m; inv_ok H; (split; [constructor; cbn; assumption|]); cbn [state_inv sel_inv].
   - split; [rewrite Sy; apply ss0_from | split; [apply page_ok_zero | intros _; exact Hlen]].
@@ -729,10 +733,10 @@ Proof.
     bind_ok H s2 H2. inv_ok H. split; [eapply INS; eassumption | triv_t].
 Qed.
 
-Lemma ce_insert_or_replace_wf (b : bool) c sym c' : wf_ce c ->
+Lemma ce_insert_or_replace_wf (b : bool) c sym c' : wf_ce c -> (b = false -> char_at_cursor c) ->
   (if b then ce_insert c sym else ce_replace c sym) = Ok c' -> wf_ce c'.
 Proof.
-  intros W H. destruct b; [now destruct (ce_insert_spec _ _ _ W H) | now destruct (ce_replace_spec _ _ _ W H)].
+  intros W Hb H. destruct b; [now destruct (ce_insert_spec _ _ _ W H) | now destruct (ce_replace_spec _ _ _ W (Hb eq_refl) H)].
 Qed.
 
 (* what a step inside the Selecting state guarantees: the shared state stays well-formed, a new
@@ -760,8 +764,10 @@ Proof.
   intros I Hsel (Hpg & Hact) H. unfold selecting_select_offset in H. destruct sel as [p|y|sym0].
   - bind_ok H cands Hc. destruct (nth_error cands _) as [text|].
     + bind_ok H c1 H1. inv_ok H. split; [|split; exact Logic.I].
-      destruct I as [W Dk Sy Pp]. destruct Hsel as ([Hlt Hle _] & Hcom).
-      destruct (ce_select_spec _ (mkIv (ps_begin p) (ps_end p) true text) _ W Hlt H1) as (W1 & _).
+      destruct I as [W Dk Sy Pp]. destruct Hsel as ([Hlt Hle Hsel0] & Hcom).
+      assert (Hsyl : forall k, ps_begin p <= k < ps_end p -> syl_sym (inner (com s)) k).
+      { intros k Hk. rewrite <- Hcom. destruct Hsel0 as [Hs0 _ _]. exact (Hs0 k Hk). }
+      destruct (ce_select_spec _ (mkIv (ps_begin p) (ps_end p) true text) _ W Hlt Hsyl H1) as (W1 & _).
       constructor; cbn; [|assumption|assumption|assumption].
       destruct (o_auto_shift (opts s)); [apply ce_right_wf|]; apply ce_pop_cursor_wf; assumption.
     + inv_ok H. split; [assumption | split; [exact Logic.I | split; [assumption | split; assumption]]].
@@ -769,13 +775,13 @@ Proof.
     bind_ok H r Hr. destruct r as [y' res]. pose proof (ss_select_from _ _ _ _ Hsel Hr) as Hy'. destruct res as [sym|].
     + bind_ok H c1 H1. inv_ok H. split; [|split; exact Logic.I].
       destruct I as [W Dk Sy Pp]. constructor; cbn; [|assumption|assumption|assumption].
-      apply ce_pop_cursor_wf. eapply ce_insert_or_replace_wf; eassumption.
+      apply ce_pop_cursor_wf. eapply ce_insert_or_replace_wf; [exact W | exact Hact | eassumption].
     + inv_ok H. split; [assumption | split; [exact Logic.I | split; [exact Hy' | split; [apply page_ok_zero | exact Hact]]]].
   - bind_ok H m Hm. destruct (Nat.leb _ _); [inv_ok H; split; [assumption | split; [exact Logic.I | split; [assumption | split; assumption]]]|].
     bind_ok H res Hr. destruct res as [sym|].
     + bind_ok H c1 H1. inv_ok H. split; [|split; exact Logic.I].
       destruct I as [W Dk Sy Pp]. constructor; cbn; [|assumption|assumption|assumption].
-      apply ce_pop_cursor_wf. eapply ce_insert_or_replace_wf; eassumption.
+      apply ce_pop_cursor_wf. eapply ce_insert_or_replace_wf; [exact W | exact Hact | eassumption].
     + inv_ok H. split; [assumption | split; [exact Logic.I | split; [exact Hsel | split; [apply page_ok_zero | exact Hact]]]].
 Qed.
 
@@ -795,7 +801,7 @@ Proof.
     unfold ce_symbol, comp_symbol in Esym. destruct sym as [code|ch]; [|discriminate].
     apply ps_init_inv in Hp; [|exact Dk | exact Hcur | exists code; exact Esym].
     destruct Hp as (Hok & Hc). split; [split; [exact Hok | now rewrite Hc] | exact Logic.I].
-  - inv_ok H. cbn. split; [unfold is_char; now rewrite Eis | intros _; exact Hcur].
+  - inv_ok H. cbn. split; [unfold is_char; now rewrite Eis|]. intros _. destruct sym as [code|ch]; [discriminate|]. exists ch. exact Esym.
 Qed.
 
 (* stay in the list with the same shared state, selector and (given) page *)
